@@ -11,7 +11,7 @@ from hypothesis import strategies as st
 from vf import lattice as lt
 from vf.core import Cell, Ctx, Violation
 from vf.foamdict import FoamParseError
-from vf.refmodel import rodrigues
+from vf.refmodel import apply, m_rotate, m_scale, rodrigues
 
 warnings.simplefilter("ignore")
 
@@ -24,7 +24,11 @@ RULE = (
     "Point sets are random walks (3-12 points, 4-12 for splines; step lengths spread over a factor of up to 20, three "
     "levels of turning) at scales 0.1-100 or small in absolute units (1e-2, 1e-3, 3e-4, 1e-4; shortest spacing 1 x "
     "scale >= 1000 TOL), plus (closest / edge cells) unit-size piecewise-linear curves with a fine detail: a fillet of "
-    "radius 0.005-0.02 through 20-120 points (segments down to 6e-5); Line / Circle (rim perpendicular to a non-unit normal, full or clipped "
+    "radius 0.005-0.02 through 20-120 points (segments down to 6e-5). Three in five point curves are built from source "
+    "points and then moved by the library's own translate / rotate / scale / shear (shear twice as likely; plane below "
+    "all points, non-unit normal and direction) while the harness maps the points itself (R-AFFINE; shear = p + d "
+    "(p-o).n / tan(angle)); the first library call after that is drawn: the cell's own query, get_point, get_length or "
+    "get_closest_param. Line / Circle (rim perpendicular to a non-unit normal, full or clipped "
     "bounds) / helix / twisted-cubic analytic curves in random frames. Parameters are drawn uniformly, at the bounds and "
     "at the parameters of defining points, in either order. Queries are a curve point plus an offset of <= 5 % of the "
     "local point spacing (near) or 0.5-3 curve lengths (far, counted only). References are written in the harness: "
@@ -46,6 +50,9 @@ ASSUMPTIONS = [
     "closest parameter: |P(t*)-q| <= minimum over the dense samples + 3e-6 of the curve length, asserted for near "
     "queries only; converged answers of the library are within 2.7e-8 L (sqrt(eps) accuracy of scipy's bounded scalar "
     "search; measured over 18 000 near queries), so the margin is 100x",
+    "a curve obtained by transforming another one is judged like any other curve (the statement quantifies over curves, "
+    "not over how they were made); the expected image of the defining points is computed by the harness; shear planes "
+    "keep every point further than TOL on one side (the library leaves points on the plane alone)",
     "LineCurve / CircleCurve follow their documented parametrisation (p1 + t (p2 - p1); the rim point rotated by t about "
     "the normal, right-handed): the harness' closed forms stand for them when sampling densely",
     "edge cell: vertices are placed on the curve at points it passes exactly once (else the edge is not judged: "
@@ -91,13 +98,75 @@ def frame(draw):
     return {"axis": draw(_vec), "angle": draw(st.floats(-math.pi, math.pi)), "origin": draw(_vec)}
 
 
+def transformed_points(points, tr):
+    """the harness' own image of the points under the drawn transform"""
+    P = np.array(points, dtype=float)
+    kind = tr["kind"]
+    if kind == "translate":
+        return P + np.array(tr["displacement"])
+    if kind == "rotate":
+        return apply(m_rotate(tr["angle"], tr["axis"], tr["origin"]), P)
+    if kind == "scale":
+        return apply(m_scale(tr["ratio"], tr["origin"]), P)
+    # shear: every point lies on the positive side of the plane (origin, normal) by construction
+    n = np.array(tr["normal"]) / np.linalg.norm(tr["normal"])
+    d = np.array(tr["direction"]) / np.linalg.norm(tr["direction"])
+    return P + np.outer(((P - np.array(tr["origin"])) @ n) / math.tan(tr["angle"]), d)
+
+
+def apply_transform(curve, tr):
+    """the same transform through the library's own methods"""
+    kind = tr["kind"]
+    if kind == "translate":
+        curve.translate(tr["displacement"])
+    elif kind == "rotate":
+        curve.rotate(tr["angle"], tr["axis"], tr["origin"])
+    elif kind == "scale":
+        curve.scale(tr["ratio"], tr["origin"])
+    else:
+        curve.shear(tr["normal"], tr["origin"], tr["direction"], tr["angle"])
+
+
+@st.composite
+def transform_of(draw, points):
+    P = np.array(points)
+    centre = P.mean(axis=0)
+    size = float(np.linalg.norm(P - centre, axis=1).max())
+    kind = draw(st.sampled_from(["shear", "shear", "translate", "rotate", "scale"]))
+    origin = [float(x) for x in centre + size * np.array(draw(_vec))]
+    if kind == "translate":
+        return {"kind": kind, "displacement": [float(x) for x in 2 * size * np.array(draw(_vec))]}
+    if kind == "rotate":
+        return {"kind": kind, "angle": draw(st.floats(-3.0, 3.0)), "axis": [float(x) for x in _normalised(draw(_vec), [0, 0, 1])],
+                "origin": origin}
+    if kind == "scale":
+        return {"kind": kind, "ratio": draw(st.floats(0.3, 3.0)), "origin": origin}
+    n = _normalised(draw(_vec), [0, 0, 1])
+    d = np.array(draw(_vec))
+    d = _normalised(d - (d @ n) * n, np.cross(n, [1, 0, 0]) if abs(n[0]) < 0.9 else np.cross(n, [0, 1, 0]))
+    d = d - (d @ n) * n
+    below = centre - n * (float(((P - centre) @ n).max() - ((P - centre) @ n).min()) + 0.5 * size)
+    angle = draw(st.sampled_from([1.0, -1.0])) * draw(st.floats(0.5, 1.3))
+    return {"kind": kind, "normal": [float(x) for x in n * draw(st.sampled_from([1.0, 0.3, 4.0]))],
+            "direction": [float(x) for x in d / np.linalg.norm(d) * draw(st.sampled_from([1.0, 0.3, 4.0]))],
+            "origin": [float(x) for x in below], "angle": angle if angle > 0 else math.pi + angle}
+
+
 @st.composite
 def point_curve(draw, kinds=("linear", "spline")):
     kind = draw(st.sampled_from(list(kinds)))
     spec = {"type": kind}
     if kind != "discrete":
         spec["equalize"] = draw(st.sampled_from([True, False]))
-    spec["points"] = draw(point_set(4 if kind == "spline" else 3))
+    # the first library call after construction / transformation (None: the cell's own first query)
+    spec["first"] = draw(st.sampled_from([None, None, "point", "length", "closest"]))
+    points = draw(point_set(4 if kind == "spline" else 3))
+    if draw(st.sampled_from([False, False, True, True, True])):
+        # the curve is built from source_points and transformed by the library; "points" is where the harness expects it
+        spec["source_points"] = points
+        spec["transform"] = draw(transform_of(points))
+        points = [[float(x) for x in q] for q in transformed_points(points, spec["transform"])]
+    spec["points"] = points
     return spec
 
 
@@ -200,12 +269,26 @@ def _frame(spec):
 def build(spec):
     """-> (library curve, ref(ts) -> (N, 3) array or None when only the library defines the curve)"""
     kind = spec["type"]
-    if kind == "discrete":
-        return DiscreteCurve(spec["points"]), None
-    if kind in ("linear", "spline"):
-        cls = LinearInterpolatedCurve if kind == "linear" else SplineInterpolatedCurve
-        curve = cls(spec["points"], equalize=spec["equalize"])
-        if kind == "spline":
+    if kind in ("discrete", "linear", "spline"):
+        source = spec.get("source_points", spec["points"])
+        if kind == "discrete":
+            curve = DiscreteCurve(source)
+        else:
+            curve = (LinearInterpolatedCurve if kind == "linear" else SplineInterpolatedCurve)(source, equalize=spec["equalize"])
+        try:
+            if "transform" in spec:
+                apply_transform(curve, spec["transform"])
+            first = spec.get("first")
+            if first == "point":
+                curve.get_point(curve.bounds[0])
+            elif first == "length":
+                curve.get_length(curve.bounds[0], curve.bounds[1])
+            elif first == "closest":
+                curve.get_closest_param(spec["points"][0])
+        except Exception as ex:  # noqa: BLE001
+            raise Violation("curve-setup-raised", f"transform / first query raised {type(ex).__name__}: {ex}",
+                            type=kind, transform=(spec.get("transform") or {}).get("kind"), first=spec.get("first")) from None
+        if kind != "linear":
             return curve, None
         prm = np.array(break_params(spec))
         pts = np.array(spec["points"])
@@ -272,9 +355,11 @@ def size_of(spec) -> float:
 
 
 def size_labels(spec):
-    """absolute size classes (the library's tolerances are absolute: TOL = 1e-7)"""
+    """absolute size classes (the library's tolerances are absolute: TOL = 1e-7); how the curve was obtained"""
     size = size_of(spec)
     out = ["size<1e-2" if size < 1e-2 else ("size<1" if size < 1 else "size>=1")]
+    if "points" in spec:
+        out += ["transform=" + str((spec.get("transform") or {}).get("kind")), "first=" + str(spec.get("first") or "own")]
     if "points" in spec:
         seg = np.linalg.norm(np.diff(np.array(spec["points"]), axis=0), axis=1)
         out.append("shortest-segment<3e-4" if seg.min() < 3e-4 else "shortest-segment>=3e-4")
@@ -292,7 +377,8 @@ def spacing_ratio(spec) -> float:
 
 def facts_of(case, **more):
     spec = case["curve"]
-    out = {"type": spec["type"], "equalize": spec.get("equalize"), "n": len(spec.get("points", [])), **more}
+    out = {"type": spec["type"], "equalize": spec.get("equalize"), "n": len(spec.get("points", [])),
+           "transform": (spec.get("transform") or {}).get("kind"), "first": spec.get("first"), **more}
     if "params" in case:
         out["params"] = case["params"]
     return out
@@ -314,7 +400,7 @@ def nontrivial(case, ctx: Ctx) -> None:
     ctx.nt(ratio > 2 and not at_bounds)
     ctx.label("type=" + spec["type"] + ("/eq" if spec.get("equalize") else ""))
     if "points" in spec:
-        ctx.label("ratio>2" if ratio > 2 else "ratio<=2", "ratio>10" if ratio > 10 else "ratio<=10")
+        ctx.label("ratio>2" if ratio > 2 else "ratio<=2", "ratio>10" if ratio > 10 else "ratio<=10", *size_labels(spec)[1:3])
     if "params" in case and len(case["params"]) >= 2:
         a, b = case["params"][:2]
         ctx.label("a<b" if a < b else ("a>b" if a > b else "a=b"))
